@@ -3,8 +3,10 @@
 oracle (real code only): create_db on an occupied path raises without force and leaves the content untouched; with
 force the result holds only the new input; every read-style method issues only SELECT/PRAGMA statements (sqlite3 trace
 callback on FeatureDB.conn) and the content observed after reopening the file is unchanged.
-correspondence: the classification of operations in the Lean World model (reads leave the persistent state
-unchanged) - the model's dump before and after the same read sequence.
+correspondence: `World.createDb` (GffModel/World.lean, through the `world` command of ProtoWorld) on the same
+(old database, new input, force) sequences - which files exist and their content after every create_db call; the
+classification of operations in the Lean World model (reads leave the persistent state unchanged) - the model's dump
+before and after the same read sequence.
 """
 import os
 import warnings
@@ -12,6 +14,7 @@ import warnings
 import common
 import dbside
 import gen_db
+import worldside
 from common import enc, dec
 
 TRUSTED = ["sqlite3.Connection.set_trace_callback reports every statement the connection executes"]
@@ -40,58 +43,152 @@ def small_gff(r, tag):
 WRITE_WORDS = ("insert", "update", "delete", "create", "drop", "alter", "replace", "vacuum", "reindex", "analyze")
 
 
+EXTENSIONS = [".db", ".gffdb", ".sqlite", "", ".gff3.db", ".DB"]
+
+
+def idless_lines(r, nodes, tag):
+    """features WITHOUT an ID attribute (their keys are auto-numbered: exon_1, mRNA_1, ...), some below a stored parent"""
+    out = []
+    for i in range(r.randrange(1, 5)):
+        attrs = [("Parent", [r.choice(nodes)["id"]])] if nodes and r.random() < 0.6 else [("Name", ["%s%d" % (tag, i)])]
+        start = r.randrange(1, 4000)
+        out.append(gen_db.gff_line(r.choice(["chr1", "chr2"]), r.choice(["exon", "exon", "mRNA", "gene"]), start,
+                                   start + r.randrange(1, 300), r.choice("+-"), attrs))
+    return out
+
+
+def clobber_input(r, tag):
+    lines, nodes = small_gff(r, tag)
+    if r.random() < 0.75:
+        extra = idless_lines(r, nodes, tag)
+        for x in extra:
+            lines.insert(r.randrange(len(lines) + 1), x)
+    if r.random() < 0.5:
+        lines = ["##gff-version 3"] + (["##species %s" % tag] if r.random() < 0.5 else []) + lines
+    return lines
+
+
+CLOBBER = [0]
+
+
+def check_clobber(ctx, case, res, scripts=None):
+    """(old database, new input) on one path, in ONE process: create_db without force must raise and leave the file's
+    content untouched; with force=True the result holds only the new input - features, relations, directives, dialect
+    and id counters equal a fresh import of the new input alone at a path never used before.
+    `scripts`: collects the RealWorld script for the World.createDb correspondence"""
+    import gffutils
+    CLOBBER[0] += 1
+    root = os.path.join(ctx.scratch, "clobber%d" % CLOBBER[0])
+    rw = worldside.RealWorld(os.path.join(root, "w"), os.path.join(root, "in"))
+    name, old_lines, new_lines = case["name"], case["old"], case["input"]
+    cfg = dbside.Cfg.from_json(case["config"])
+    dbfn = os.path.join(rw.root, name)
+    res.evaluations += 1
+    try:
+        if rw.create(name, old_lines, cfg, bool(case.get("first_force"))) != "ok":
+            res.count("old_input_not_importable")
+            return
+        d0 = gffutils.FeatureDB(dbfn)
+        before = dbside.dump(d0)
+        d0.conn.close()
+        before_all = logical_dump(dbfn)
+        # without force: must raise, content untouched
+        out2 = rw.create(name, new_lines, cfg, False)
+        if out2 == "ok":
+            common.fail(res, case, "no_force_did_not_raise", "create_db on an existing database did not raise without force",
+                        observed=out2)
+        if not os.path.exists(dbfn):
+            common.fail(res, case, "no_force_file_gone",
+                        "create_db(force=False) on an existing database raised but the database file is gone",
+                        observed="no file %s" % name, outcome=out2)
+            return
+        if logical_dump(dbfn) != before_all:
+            common.fail(res, case, "no_force_content_changed_logical",
+                        "create_db(force=False) on an existing database changed the file's content (schema objects / "
+                        "indexes / statistics / rows)", outcome=out2)
+        d1 = gffutils.FeatureDB(dbfn)
+        after = dbside.dump(d1)
+        d1.conn.close()
+        if after != before:
+            common.fail(res, case, "no_force_content_changed", "create_db(force=False) on an existing database changed its content",
+                        outcome=out2, observed=after[:600], expected=before[:600])
+        # with force: only the new input
+        res.evaluations += 1
+        out3 = rw.create(name, new_lines, cfg, True)
+        elsewhere = os.path.join(root, "elsewhere")
+        os.makedirs(elsewhere, exist_ok=True)
+        fresh, rep_fresh = dbside.py_create(os.path.join(rw.inputs, "in%d.txt" % rw._n), cfg,
+                                            dbfn=os.path.join(elsewhere, "fresh_%d.sqlite3" % CLOBBER[0]))
+        if fresh is None:
+            res.count("new_input_not_importable")
+            if case.get("also_failing_import"):
+                pass
+        else:
+            fresh.conn.commit()
+            want = dbside.dump(fresh)
+            fresh.conn.close()
+            got = None
+            if out3 == "ok" and os.path.exists(dbfn):
+                d3 = gffutils.FeatureDB(dbfn)
+                got = dbside.dump(d3)
+                d3.conn.close()
+            if got != want:
+                a, b = dbside.parse_dump(got or "missing"), dbside.parse_dump(want)
+                common.fail(res, case, "force_not_only_new_input",
+                            "create_db(force=True) over an existing database does not give exactly the database of the new "
+                            "input alone (features, relations, directives, dialect, id counters)", outcome=out3,
+                            observed_ids=[f["id"] for f in a.get("features", [])], expected_ids=[f["id"] for f in b.get("features", [])],
+                            observed_counters=a.get("pauto"), expected_counters=b.get("pauto"),
+                            observed_directives=a.get("directives"), expected_directives=b.get("directives"))
+        if case.get("also_failing_import"):
+            # an import that fails (duplicate ID): the property says nothing; World.createDb takes what is left as given
+            rw.create(name, new_lines + new_lines[-1:], cfg, True)
+            rw.create(name + ".second", new_lines + new_lines[-1:], cfg, False)
+        res.count("clobber_pairs")
+        res.count("clobber_name_*%s" % os.path.splitext(name)[1])
+    finally:
+        rw.finish()
+        if scripts is not None:
+            scripts.append((rw, repr({"name": name, "old": old_lines, "new": new_lines})))
+
+
+def judge(ctx, case):
+    res = common.Result("C19")
+    if case.get("scenario") == "clobber":
+        check_clobber(ctx, case, res)
+    return res
+
+
 def run(ctx):
     import gffutils
     from gffutils import merge_criteria as mc
     res = common.Result("C19")
     r = ctx.rng("c19")
-    res.rule = ("(old database, new input) pairs x force in {False, True} on file databases; random sequences of 5-25 "
+    res.rule = ("(old database, new input) pairs x force in {False, True} on file databases named *.db, *.gffdb, *.sqlite, "
+                "without extension, ..., old and new inputs with features lacking an ID (auto-numbered keys) and directives, "
+                "all create_db calls of a pair in one process; random sequences of 5-25 "
                 "read-style calls (look-up, iteration, children, parents, region, interfeatures, create_introns, "
                 "create_splice_sites, merge, children_bp, bed12, counts, featuretypes, seqids) with random arguments on "
                 "GFF3 and GTF databases under an sqlite statement trace. non-trivial = distinct (database, call sequence)")
     cmds, exp, tags = [], [], []
+    scripts = []
     n = 25 if not ctx.thorough else 300
     for i in range(n):
-        old_lines, _ = small_gff(r, "o")
-        new_lines, _ = small_gff(r, "n")
-        for old in [x for x in os.listdir(ctx.scratch) if x.startswith("c19_")]:
-            os.unlink(os.path.join(ctx.scratch, old))
-        dbfn = os.path.join(ctx.scratch, "c19_%d.db" % i)
-        p_old = dbside.write_lines(os.path.join(ctx.scratch, "old.gff3"), old_lines)
-        p_new = dbside.write_lines(os.path.join(ctx.scratch, "new.gff3"), new_lines)
-        cfg = dbside.Cfg()
-        db, rep = dbside.py_create(p_old, cfg, dbfn=dbfn)
-        db.conn.commit(); db.conn.close()
-        before = dbside.dump(gffutils.FeatureDB(dbfn))
-        before_all = logical_dump(dbfn)
-        res.evaluations += 1
-        # without force: must raise, content untouched
-        db2, rep2 = dbside.py_create(p_new, cfg, dbfn=dbfn, force=False)
-        after = dbside.dump(gffutils.FeatureDB(dbfn))
-        if logical_dump(dbfn) != before_all:
-            res.oracle_failures.append(("create_db(force=False) on an existing database changed the file's content "
-                                        "(schema objects / indexes / statistics / rows)", {"old": old_lines, "new": new_lines}))
-        if db2 is not None:
-            res.oracle_failures.append(("create_db on an existing database did not raise without force",
-                                        {"old": old_lines, "new": new_lines}))
-        # the World model (GffModel/World.lean, theorem create_existing_fails_untouched) says `.error .operational`
-        res.corr_checked += 1
-        if rep2 != "err OperationalError":
-            res.corr_disagreements.append(("World.createDb on an occupied path", repr(new_lines)[:300],
-                                           "err OperationalError", rep2))
-        if after != before:
-            res.oracle_failures.append(("create_db(force=False) on an existing database changed its content",
-                                        {"old": old_lines, "new": new_lines}))
-        # with force: only the new input
-        db3, rep3 = dbside.py_create(p_new, cfg, dbfn=dbfn, force=True)
-        fresh, _ = dbside.py_create(p_new, cfg)
-        res.evaluations += 1
-        if db3 is None or dbside.dump(db3) != dbside.dump(fresh):
-            res.oracle_failures.append(("create_db(force=True) does not contain exactly the new input",
-                                        {"old": old_lines, "new": new_lines, "result": rep3}))
-        if db3 is not None:
-            db3.conn.close()
-        res.count("clobber_pairs")
+        case = {"scenario": "clobber", "name": "c19_%d%s" % (i, EXTENSIONS[i % len(EXTENSIONS)]),
+                "old": clobber_input(r, "o"), "input": clobber_input(r, "n"), "first_force": i % 3 == 1,
+                "also_failing_import": i % 5 == 0, "config": dbside.Cfg().to_json()}
+        if i == 0:
+            # the shape of the seeded demos: old input all auto-numbered, new input two exons without ID
+            case["old"] = ["##gff-version 3"] + [gen_db.gff_line("chr1", t, 100 + 10 * k, 200 + 10 * k, "+", [("Name", ["o%d" % k])])
+                                                 for k, t in enumerate(["gene", "mRNA", "exon", "exon", "exon"])]
+            case["input"] = ["##gff-version 3"] + [gen_db.gff_line("chr2", "exon", 10 + 20 * k, 20 + 20 * k, "-", [("Name", ["n%d" % k])])
+                                                   for k in range(2)]
+        check_clobber(ctx, case, res, scripts)
+        res.nontriv(("clobber", case["name"], tuple(case["old"]), tuple(case["input"])))
+    wout = ctx.model([rw.command() for rw, _ in scripts])
+    if wout is not None:
+        for (rw, desc), reply in zip(scripts, wout):
+            worldside.compare_world(res, "World.createDb (free / occupied path x force)", desc, rw, reply)
 
     # reads never write ------------------------------------------------------------------------------
     m = 20 if not ctx.thorough else 200
@@ -204,10 +301,14 @@ def run(ctx):
                 res.corr_disagreements.append((comp, inp[:700], mm[:300], e[:300]))
     res.assumptions = ["'content' of a database file = features, relations, directives, dialect and id counters as "
                        "observed through a fresh FeatureDB (pragmas / sqlite header bytes are not content)"]
+    common.shrink_first_failure(res, lambda case: judge(ctx, case))
     return res
 
 
 def replay(ctx, payload):
+    p = payload.get("input")
+    if isinstance(p, dict) and p.get("scenario") == "clobber" and "kind" in p:
+        return common.replay_failure("C19", payload, lambda case: judge(ctx, case))
     res = common.Result("C19")
     print("replay:", payload.get("what"), payload.get("input"))
     return res
